@@ -56,7 +56,23 @@ class Facts:
 
 
 def handler_paths(env, b):
-    return [sig(p) for p in grammar.trace(env, b.key, "r").paths]
+    def probe(it, S):
+        # the state of every stream reached through active_streams whose state was written on this path
+        out = []
+        for (root, proj), v in S.mem.items():
+            if proj and proj[-1][0] == "f" and proj[-1][2] == "current_state" and root[0] == "P" and \
+                    contains(root[1], lambda x: isinstance(x, tuple) and x[0] == "model" and str(x[1]).startswith("HashMap::get") and
+                             contains(x[2], lambda y: isinstance(y, tuple) and y[0] == "ld" and y[1][1] and y[1][1][-1][0] == "f" and y[1][1][-1][2] == "active_streams")):
+                val = S.read((root, proj))
+                while isinstance(val, tuple) and val[0] == "upd":
+                    val = val[1]
+                if isinstance(val, tuple) and val[0] == "agg" and val[2] is not None:
+                    out.append(val[2])
+                else:
+                    d = S.dom(("discr", val))
+                    out.append(tuple(x for x in range(max(d.lo, 0), min(d.hi, 16) + 1) if x not in d.excl) if d.lo > -1000 else None)
+        return tuple(out)
+    return [sig(p) for p in grammar.trace(env, b.key, "r", probe=probe).paths]
 
 
 def events_on(path):
@@ -85,6 +101,7 @@ def run(env, rep):
     if pub_d is None or play_d is None:
         rep.anchor_missing("C09.R1", "enum StreamState {Publishing, Playing}")
         return
+    stream_adt = [a for a in prog.adts.values() if a["pretty"] == "sessions::server::active_stream::StreamState"][0]
     bodies = {b.pretty.split("::")[-1]: b for b in prog.bodies.values() if b.kind == "assoc" and b.impl and b.impl.get("trait") is None and b.impl["self_ty"] == TY}
     if not bodies:
         rep.anchor_missing("C09.R1", "impl " + TY)
@@ -281,9 +298,17 @@ def run(env, rep):
         if not evs or not evs[0]:
             continue
         n6 += 1
-        st = [t for t in p if t[0] == "store" and t[1].startswith("via:") and t[1].endswith(".current_state")]
-        if not st or st[-1][2] in ("StreamState::Publishing", "StreamState::Playing") or "Publishing(" in st[-1][2] or "Playing(" in st[-1][2]:
-            bad6.append("after raising %s the stream's state is %s" % (evs[0], [t[2] for t in st] or "left unchanged"))
+        pr = [t for t in p if t[0] == "probe"]
+        finals = pr[-1][1] if pr else ()
+        pub_vi = [v["vi"] for v in stream_adt["variants"] if v["name"] in ("Publishing", "Playing")]
+
+        def idle(x):
+            if isinstance(x, int):
+                return x not in pub_vi
+            return isinstance(x, tuple) and x and all(y not in pub_vi for y in x)
+        if not finals or not all(idle(x) for x in finals):
+            st = [t for t in p if t[0] == "store" and t[1].startswith("via:") and t[1].endswith(".current_state")]
+            bad6.append("after raising %s the stream's state is %s" % (evs[0], [t[2] for t in st] or ("left unchanged" if not finals else "still possibly publishing / playing")))
     rep.check("C09.R6", "close-resets-state", n6 >= 2 and not bad6, "closeStream leaves the stream neither publishing nor playing (%d event paths)" % n6,
               "; ".join(bad6) or "fewer than two event paths in handle_command_close_stream", bodies["handle_command_close_stream"].span if "handle_command_close_stream" in bodies else None)
     paths = traces.get("handle_command_delete_stream", [])
